@@ -249,6 +249,39 @@ def serTop : List (String × PV) → Bool
   | [] => true
   | (_, x) :: rest => (x.isUnset || ser x) && serTop rest
 
+/-! ### keys that are GraphQL names: rendering a path is then injective -/
+
+/-- a key that cannot be confused with a path separator or a list index: no '.', not a numeral -/
+def keyOk (k : String) : Bool := !k.toList.contains '.' && k.toList.any (fun c => !c.isDigit)
+
+def segOk : Seg → Bool
+  | .key k => keyOk k
+  | .idx _ => true
+
+def pathOk : Path → Bool
+  | [] => true
+  | s :: r => segOk s && pathOk r
+
+mutual
+  def keysOk : PV → Bool
+    | .dict kvs => keysOkKvs kvs
+    | .list xs => keysOkList xs
+    | .none => true
+    | .unset => true
+    | .bool _ => true
+    | .num _ _ => true
+    | .str _ => true
+    | .model _ _ => true
+    | .upload _ => true
+    | .leaf _ => true
+  def keysOkList : List PV → Bool
+    | [] => true
+    | x :: xs => keysOk x && keysOkList xs
+  def keysOkKvs : List (String × PV) → Bool
+    | [] => true
+    | (k, x) :: rest => keyOk k && keysOk x && keysOkKvs rest
+end
+
 /-! ### HTTP header fields (RFC 9110: names are case-insensitive) -/
 
 def lowerName (s : String) : List Char := s.toList.map Char.toLower
